@@ -272,6 +272,27 @@ def oldest_first(rnd):
     finally:
         shutil.rmtree(base, ignore_errors=True)
 
+def two_spellings():
+    """two projects reach the same store under different spellings of its path (a symlinked mount point): a package that a workspace of
+    the one links to is in use for the other as well"""
+    base = tempfile.mkdtemp(prefix='c15y-'); share_dir = os.path.join(base, 'share'); os.makedirs(share_dir)
+    try:
+        alias = os.path.join(base, 'alias'); os.symlink(share_dir, alias)
+        pa = Project(base, 'pa', alias, None); pb = Project(base, 'pb', share_dir, '1')
+        bid = bytes([6]) * 20
+        r = pa.op('install', bid, 'payload')
+        if r[0] != 'ok' or not pa.links: return None
+        ws, path = pa.links[0]
+        for kind in ('install', 'gc-unused'):
+            g = pb.op(kind, bytes([8]) * 20, 'other' * 50)       # over quota: automatic cleaning; then an explicit non-forced gc
+            if g[0] != 'ok': return {'kind': 'operation-failed', 'failed': g[1], 'history': ['A installs via the alias path', 'B %s via the real path' % kind]}
+            if not os.path.isdir(os.path.join(os.path.realpath(path), 'workspace')):
+                return {'kind': 'collected-while-in-use/other-spelling-of-the-store-path', 'detail': 'project A reaches the store through a symlinked path; its linked package was collected by project B (%s)' % kind,
+                        'history': ['A installs via the alias path and links its workspace', 'B %s via the real path (not forced)' % kind]}
+        return None
+    finally:
+        shutil.rmtree(base, ignore_errors=True)
+
 def replay(rep):
     seed = int(os.environ.get('VERIF_SEED', '0') or 0); rnd = random.Random(seed)
     budget = float(os.environ.get('VERIF_BOUNDED_BUDGET', '25')); t0 = time.time(); tried = 0
@@ -282,6 +303,8 @@ def replay(rep):
             w = sequential(quota, rnd)
             if w is not None: return {'reproduced': True, 'tried': tried, 'witness': w}
     w = unregistered_user(); tried += 1
+    if w is not None: return {'reproduced': True, 'tried': tried, 'witness': w}
+    w = two_spellings(); tried += 1
     if w is not None: return {'reproduced': True, 'tried': tried, 'witness': w}
     for _ in range(30):
         w = oldest_first(rnd); tried += 1
